@@ -1,4 +1,5 @@
 import VelaVerif.Lemmas.Rewrites
+import VelaVerif.Lemmas.StridedConv
 import VelaVerif.Props.C01
 import Mathlib.Algebra.Order.Field.Basic
 import Mathlib.Tactic.Linarith
@@ -13,7 +14,7 @@ parameters in the rewrite's precondition. Where the precondition the code checks
 for the repaired precondition and the negation is proved on a concrete witness (`…_witness`).
 -/
 namespace VelaVerif.Props.C01Rewrites
-open VelaVerif.Requant VelaVerif.TfliteRef VelaVerif.RewriteSem VelaVerif.Rewrites VelaVerif.Lemmas.Rewrites VelaVerif.Lemmas.Sem
+open VelaVerif.Requant VelaVerif.TfliteRef VelaVerif.RewriteSem VelaVerif.Rewrites VelaVerif.Lemmas.Rewrites VelaVerif.Lemmas.Sem VelaVerif.Lemmas.StridedConv
 
 /-! ## 6. Activation ranges of a pass are intersected -/
 
@@ -556,6 +557,129 @@ example : concatOffsets [3, 5, 2] = ([0, 3, 8], 10) := by decide
 example : (List.range 10).map (fun a => writtenFrom 0 ([3, 5, 2].zip (concatOffsets [3, 5, 2]).1) a none) = (List.range 10).map (locate [3, 5, 2]) := by decide
 example : locate [3, 5, 2] 8 = some (2, 0) ∧ splitOffset [3, 5, 2] 2 = 8 := by decide
 example : axis4D 3 2 = some 3 ∧ axis4D 4 (-1) = some 3 ∧ axis4D 2 0 = some 2 := by decide
+
+/-! ## 5b. Width folding of a strided convolution (`fixup_strided_conv`) -/
+
+/-- **Width folding is the same convolution exactly when the filter is aligned.** Original: IFM `[H, r * W', C]`, kernel
+    `kh × kw`, stride `(sy, r * f)`, hardware padding `(pt, pl)`. Folded: IFM `[H, W', r * C]` (`foldedIfm`: the same
+    memory), the filter padded with `L` zero columns on the left and `R` on the right to a width `kw' * r` and folded the same
+    way (`foldedFilter`), stride `(sy, f)`, hardware padding `(pt, pl')`. If `L + pl = r * pl'` — the first filter column
+    falls on a folded-column boundary counted from the first padded IFM column — every accumulator of the folded
+    convolution equals the accumulator of the original one (all positions, all tensors, all zero points).
+    This equation is what repair C01-18 establishes (`pl' = ⌈pl / r⌉`, `L = r * pl' - pl`, explicit padding); the unrepaired
+    `calc_filter_padding` does not (known finding `strided-conv-fold:filter-zero-padding-misaligned`). -/
+theorem strided_conv_fold_eq (H W' C r kh kw kw' L R sy f pt pl pl' : Nat) (hC : 0 < C) (hr : 0 < r)
+    (hk : L + kw + R = kw' * r) (hal : L + pl = r * pl')
+    (ifm wgt : Nat → Nat → Nat → Int) (inOff : Int) (oy ox : Nat) :
+    convAcc H (r * W') C ifm kh kw wgt sy (r * f) 1 1 pt pl inOff oy ox =
+    convAcc H W' (r * C) (foldedIfm r C ifm) kh kw' (foldedFilter r C L kw wgt) sy f 1 1 pt pl' inOff oy ox := by
+  unfold convAcc
+  apply sumRange_congr
+  intro ky _
+  simp only []
+  -- the summand of the folded convolution per padded-filter column kxp = kx' * r + j
+  let D : Nat → Int := fun kxp =>
+    if 0 ≤ ((oy * sy + ky * 1 : Nat) : Int) - (pt : Int) ∧ ((oy * sy + ky * 1 : Nat) : Int) - (pt : Int) < (H : Int) ∧
+       0 ≤ ((ox * f + kxp / r * 1 : Nat) : Int) - (pl' : Int) ∧ ((ox * f + kxp / r * 1 : Nat) : Int) - (pl' : Int) < (W' : Int)
+    then sumRange C fun c =>
+      (ifm (((oy * sy + ky * 1 : Nat) : Int) - (pt : Int)).toNat (r * (((ox * f + kxp / r * 1 : Nat) : Int) - (pl' : Int)).toNat + kxp % r) c + inOff) *
+        paddedFilter L kw wgt ky kxp c
+    else 0
+  -- right-hand side as a sum of D over the padded filter columns
+  have hR : (sumRange kw' fun kx' =>
+      if 0 ≤ ((oy * sy + ky * 1 : Nat) : Int) - (pt : Int) ∧ ((oy * sy + ky * 1 : Nat) : Int) - (pt : Int) < (H : Int) ∧
+         0 ≤ ((ox * f + kx' * 1 : Nat) : Int) - (pl' : Int) ∧ ((ox * f + kx' * 1 : Nat) : Int) - (pl' : Int) < (W' : Int)
+      then sumRange (r * C) fun ic =>
+        (foldedIfm r C ifm (((oy * sy + ky * 1 : Nat) : Int) - (pt : Int)).toNat (((ox * f + kx' * 1 : Nat) : Int) - (pl' : Int)).toNat ic + inOff) *
+          foldedFilter r C L kw wgt ky kx' ic
+      else 0) = sumRange (kw' * r) D := by
+    rw [sumRange_mul kw' r D]
+    apply sumRange_congr
+    intro kx' _
+    have hdiv : ∀ j, j < r → (kx' * r + j) / r = kx' ∧ (kx' * r + j) % r = j := by
+      intro j hj
+      constructor
+      · rw [Nat.add_comm, Nat.add_mul_div_right _ _ hr, Nat.div_eq_of_lt hj, Nat.zero_add]
+      · rw [Nat.add_comm, Nat.add_mul_mod_self_right, Nat.mod_eq_of_lt hj]
+    split
+    · rename_i hv
+      rw [sumRange_mul r C]
+      apply sumRange_congr
+      intro j hj
+      have ⟨d1, d2⟩ := hdiv j hj
+      simp only [D, d1, d2]
+      rw [if_pos hv]
+      apply sumRange_congr
+      intro c hc
+      have c1 : (j * C + c) / C = j := by
+        rw [Nat.add_comm, Nat.add_mul_div_right _ _ hC, Nat.div_eq_of_lt hc, Nat.zero_add]
+      have c2 : (j * C + c) % C = c := by
+        rw [Nat.add_comm, Nat.add_mul_mod_self_right, Nat.mod_eq_of_lt hc]
+      simp only [foldedIfm, foldedFilter, c1, c2]
+      rw [Nat.mul_comm r kx']
+    · rename_i hv
+      have : ∀ j, j < r → D (kx' * r + j) = 0 := by
+        intro j hj
+        have ⟨d1, _⟩ := hdiv j hj
+        simp only [D, d1]
+        rw [if_neg hv]
+      rw [sumRange_congr r _ (fun _ => 0) this, sumRange_zero_fn]
+  rw [hR, ← hk]
+  -- D vanishes on the zero columns of the padded filter
+  have hz : ∀ k, k < L + kw + R → (k < L ∨ L + kw ≤ k) → D k = 0 := by
+    intro k _ hout
+    simp only [D]
+    split
+    · have : ∀ c, paddedFilter L kw wgt ky k c = 0 := by
+        intro c
+        unfold paddedFilter
+        rw [if_neg (by omega)]
+      simp only [this, Int.mul_zero]
+      exact sumRange_zero_fn C
+    · rfl
+  rw [sumRange_window L kw R D hz]
+  apply sumRange_congr
+  intro kx hkx
+  -- D (L + kx) is the summand of the original convolution
+  have hj : (L + kx) % r < r := Nat.mod_lt _ hr
+  have hdm : r * ((L + kx) / r) + (L + kx) % r = L + kx := Nat.div_add_mod _ r
+  have ⟨hiff, hnat⟩ := fold_index r W' f ox kx L pl pl' ((L + kx) / r) ((L + kx) % r) hr hal hdm hj
+  simp only [D]
+  by_cases hv : 0 ≤ ((oy * sy + ky * 1 : Nat) : Int) - (pt : Int) ∧ ((oy * sy + ky * 1 : Nat) : Int) - (pt : Int) < (H : Int) ∧
+      0 ≤ ((ox * (r * f) + kx * 1 : Nat) : Int) - (pl : Int) ∧ ((ox * (r * f) + kx * 1 : Nat) : Int) - (pl : Int) < ((r * W' : Nat) : Int)
+  · have hv' := hiff.mp ⟨hv.2.2.1, hv.2.2.2⟩
+    rw [if_pos hv, if_pos ⟨hv.1, hv.2.1, hv'.1, hv'.2⟩]
+    apply sumRange_congr
+    intro c _
+    rw [hnat hv'.1]
+    unfold paddedFilter
+    rw [if_pos (by omega)]
+    have : L + kx - L = kx := by omega
+    rw [this]
+  · have hv2 : ¬ (0 ≤ ((oy * sy + ky * 1 : Nat) : Int) - (pt : Int) ∧ ((oy * sy + ky * 1 : Nat) : Int) - (pt : Int) < (H : Int) ∧
+        0 ≤ ((ox * f + (L + kx) / r * 1 : Nat) : Int) - (pl' : Int) ∧ ((ox * f + (L + kx) / r * 1 : Nat) : Int) - (pl' : Int) < (W' : Int)) := by
+      intro c
+      apply hv
+      have := hiff.mpr ⟨c.2.2.1, c.2.2.2⟩
+      exact ⟨c.1, c.2.1, this.1, this.2⟩
+    rw [if_neg hv, if_neg hv2]
+
+/-- non-vacuity: kernel 3 wide, stride 4 = 2 * 2, left padding 1 on a 6-wide IFM folded by 2 (`L = 1`, `R = 0`, `pl' = 1`) -/
+example :
+    let ifm : Nat → Nat → Nat → Int := fun y x c => (y * 7 + x * 3 + c : Nat)
+    let wgt : Nat → Nat → Nat → Int := fun ky kx c => (ky : Int) - 2 * kx + c
+    (List.range 2).map (fun ox => TfliteRef.convAcc 2 (2 * 3) 2 ifm 1 3 wgt 1 (2 * 2) 1 1 0 1 (-1) 1 ox) =
+    (List.range 2).map (fun ox => TfliteRef.convAcc 2 3 (2 * 2) (foldedIfm 2 2 ifm) 1 2 (foldedFilter 2 2 1 3 wgt) 1 2 1 1 0 1 (-1) 1 ox) := by
+  decide
+
+/-- the alignment is needed: the same filter with the zero column on the other side (`L = 0`, `R = 1`, `pl' = 1`, so
+    `L + pl = 1 ≠ 2 = r * pl'`) computes something else -/
+theorem strided_conv_misaligned_witness :
+    let ifm : Nat → Nat → Nat → Int := fun y x c => (y * 7 + x * 3 + c : Nat)
+    let wgt : Nat → Nat → Nat → Int := fun ky kx c => (ky : Int) - 2 * kx + c
+    TfliteRef.convAcc 2 (2 * 3) 2 ifm 1 3 wgt 1 (2 * 2) 1 1 0 1 (-1) 1 1 ≠
+    TfliteRef.convAcc 2 3 (2 * 2) (foldedIfm 2 2 ifm) 1 2 (foldedFilter 2 2 0 3 wgt) 1 2 1 1 0 1 (-1) 1 1 := by
+  decide
 
 /-! ## 5. Depthwise convolution with one input channel -/
 
